@@ -9,7 +9,8 @@
    correspondence check (including histories of hundreds of bars) and the monitor. *)
 From Coq Require Import ZArith QArith List.
 From Basana Require Import Num.DecQ Exchange.Model Exchange.AcctProofs Exchange.StepProofs Exchange.OpProofs
-     Exchange.OrderProofs Exchange.LifeProofs Exchange.Prims Exchange.Structure Exchange.LedgerProofs Exchange.FillBounds Exchange.IndexProofs.
+     Exchange.OrderProofs Exchange.LifeProofs Exchange.Prims Exchange.Structure Exchange.LedgerProofs Exchange.FillBounds Exchange.IndexProofs
+     Exchange.Reconfig Exchange.ReconfigProofs.
 Import ListNotations.
 Open Scope Q_scope.
 
@@ -108,3 +109,18 @@ Theorem C05_listing_exact_in_every_reachable_state : forall c initial ops p id,
   NoDup (snd (list_open s p)).
 Proof. exact listing_exact. Qed.
 Print Assumptions C05_listing_exact_in_every_reachable_state.
+
+(* amounts stay within bounds and closed orders stay final along histories with precision changes anywhere *)
+Theorem C05_filled_within_bounds_under_reconfiguration : forall c initial xs i o,
+  cfg_ok c -> xops_ok xs -> (forall kv, In kv initial -> 0 <= snd kv) ->
+  nth_error (s_orders (snd (xrun (c, init_st initial) xs))) i = Some o ->
+  o_id o = i /\ 0 <= filled o /\ filled o <= o_amount o.
+Proof. exact filled_reachable_reconf. Qed.
+Print Assumptions C05_filled_within_bounds_under_reconfiguration.
+
+Theorem C05_closed_orders_final_under_reconfiguration : forall c initial xs1 xs2 i o,
+  cfg_ok c -> xops_ok xs1 -> xops_ok xs2 -> (forall kv, In kv initial -> 0 <= snd kv) ->
+  nth_error (s_orders (snd (xrun (c, init_st initial) xs1))) i = Some o -> is_open o = false ->
+  nth_error (s_orders (snd (xrun (c, init_st initial) (xs1 ++ xs2)))) i = Some o.
+Proof. exact closed_final_reconf. Qed.
+Print Assumptions C05_closed_orders_final_under_reconfiguration.
